@@ -14,7 +14,7 @@ ASSUMPTIONS = ["the sum of the constant terms is non-zero (else the group key is
 TRUSTED = ["modelled, not verified: field/module laws of the curve libraries; HDKG (any function in the theorems)"]
 
 
-def run(sess, suite, n, t, kind, clones=0):
+def run(sess, suite, n, t, kind, clones=0, zero_share=False):
     rng = sess.rng
     fld = Fld(suite)
     start = len(sess.records)
@@ -25,7 +25,15 @@ def run(sess, suite, n, t, kind, clones=0):
         k0 = rng.randrange(0, n - clones + 1)
         same = tuple(order[k0:k0 + clones])       # adjacent in identifier order, identical polynomials
         sess.count("identical-polynomials")
-    d = Dkg(sess, suite, n, t, ids).run(same)
+    d = Dkg(sess, suite, n, t, ids)
+    if zero_share and t == 2:
+        # a legal but never-drawn polynomial: the share one participant sends to another is the ZERO scalar (f_a(b) = 0)
+        a, b = ids[0], ids[1]
+        a0 = fld.rand(rng)
+        a1 = (-a0 * fld.inv(fld.dec(b))) % fld.q
+        d.tapes[a] = (scalar_draw(suite, a0) + scalar_draw(suite, a1)).hex() + sess.tape(512)
+        sess.count("zero-valued round-two share")
+    d.run(same)
     rp = lambda: [x[0] for x in sess.records[start:]]
     if not sess.oracle(d.ok, "honest DKG step failed (%s)" % (getattr(d, "err", None) and d.err.raw), rp()):
         return
@@ -45,11 +53,15 @@ def run(sess, suite, n, t, kind, clones=0):
                 cs = [fld.dec(c) for c in d.sp1[l].split(":")[1].split(",")]
                 want += sum(c * pow(fld.dec(i), k, fld.q) for k, c in enumerate(cs))
             sess.oracle(fld.dec(kp["share"]) == want % fld.q, "signing share is not the sum of the polynomials at the identifier", rp())
+    heads = [r1_fields(d.pkg1[l])["comm"][0] for l in ids]
+    m = sess.call("msm %s scalars=%s elems=%s" % (suite, ",".join([fld.enc(1)] * n), ",".join(heads)), EXACT, "msm-sum")
     if suite != "secp256k1-tr":
         # group key = sum of the constant-term commitments
-        heads = [r1_fields(d.pkg1[l])["comm"][0] for l in ids]
-        m = sess.call("msm %s scalars=%s elems=%s" % (suite, ",".join([fld.enc(1)] * n), ",".join(heads)), EXACT, "msm-sum")
         sess.oracle(m.ok and m["v"] == pk["vk"], "group key is not the sum of the constant-term commitments", rp())
+    elif m.ok and m["v"] != "id":
+        # Taproot: the key-path-only BIP-341 output key of that sum, tweaked exactly once
+        q0 = sess.call("bip341_output %s vk=%s root=none" % (suite, m["v"]), EXACT, "bip341_output")
+        sess.oracle(q0.ok and q0["q"] == pk["vk"][2:], "Taproot DKG did not output the key-path-only tweaked key of the summed constant terms (BIP-341)", rp())
     signers = rng.sample(ids, rng.randrange(t, n + 1))
     full_sign_ok(sess, suite, d.kp, pk0, signers, what="sign after DKG", replay_from=start)
     sess.count("suite:" + suite)
@@ -64,6 +76,7 @@ def generate(sess):
     for suite in TOY_SUITES + REAL_SUITES:
         evalpoly_stream(sess, suite, 30 if thorough else 10)
         run(sess, suite, 3, 2, "default", clones=2)
+        run(sess, suite, 3, 2, rng.choice(["default", "u16", "scalar"]), zero_share=True)
         if thorough or suite in TOY_SUITES:
             run(sess, suite, 4, 3, rng.choice(ID_KINDS), clones=rng.choice([2, 3]))
     for suite in TOY_SUITES:
@@ -71,8 +84,13 @@ def generate(sess):
             for t in range(2, n + 1):
                 for kind in (ID_KINDS if thorough else [rng.choice(ID_KINDS)]):
                     run(sess, suite, n, t, kind)
+        # more than eight coefficients (implementations may switch algorithm with the size), identifiers other than 1
+        run(sess, suite, 10, 9, rng.choice(["default", "u16"]))
         if thorough:
             run(sess, suite, 12, 7, "u16")
+            run(sess, suite, 17, 17, "derived")
+    for suite in (REAL_SUITES if thorough else [REAL_SUITES[sess.seed % len(REAL_SUITES)], "secp256k1-tr"]):
+        run(sess, suite, 10, 9, "default")
     for rep in range(3 if thorough else 1):
         for suite in REAL_SUITES:
             for (n, t) in ([(2, 2), (3, 2), (4, 3), (5, 5)] if thorough else [(3, 2), (4, 3)]):
